@@ -603,3 +603,30 @@ Proof.
   - lia.
   - exact Hf.
 Qed.
+
+(* ------------------------------------------------------------------ multiUse read-ahead *)
+
+Definition is_skip (r : step) : bool := match r with Skip _ => true | _ => false end.
+
+(* if the step after the consumer's decision is not a Skip (no element is dropped on the way), the
+   read-ahead of the multiUse pass is exactly that one step: each closure at most once more *)
+Lemma drain_one : forall id f p q,
+  is_skip (snd (next p q)) = false ->
+  snd (drain (S f) p q) = 1%nat /\ (count id (fst (drain (S f) p q)) <= occ_pipe id p)%nat.
+Proof.
+  intros id f p q H. cbn [drain]. pose proof (next_count id p q) as Hc.
+  destruct (next p q) as [l r]. cbn [fst snd] in *.
+  destruct r; cbn in H; try discriminate; cbn [fst snd]; split; try reflexivity; exact Hc.
+Qed.
+
+(* in general the read-ahead costs as many steps as it takes the pipeline to yield again *)
+Lemma drain_count : forall id f p q,
+  (count id (fst (drain f p q)) <= occ_pipe id p * snd (drain f p q))%nat.
+Proof.
+  intros id f. induction f as [|f IH]; intros p q; cbn [drain].
+  - cbn. lia.
+  - pose proof (next_count id p q) as Hc. destruct (next p q) as [l r]. cbn [fst] in Hc.
+    destruct r as [|q'|v q'|e]; cbn [fst snd]; try lia.
+    specialize (IH p q'). destruct (drain f p q') as [l' n]. cbn [fst snd] in *.
+    rewrite count_app, Nat.mul_succ_r. lia.
+Qed.
